@@ -184,6 +184,10 @@ func run(repo, out string) error {
 			}
 		}
 	}
+	// readers: functions and methods named Get… and everything they (transitively, within the library) call by name.
+	// A reader that writes through its receiver or a parameter changes what other readers of the same value see; such
+	// write statements become scheduling points (on a tree whose getters only read there are none).
+	readers := readerFuncs(pkgs)
 	// pass 3: rewrite
 	overlay := map[string]string{}
 	var points []point
@@ -214,6 +218,9 @@ func run(repo, out string) error {
 					for k := first; k < len(points); k++ {
 						points[k].Init = true
 					}
+				}
+				if readers[fd] {
+					instrReaderWrites(fset, fd, p, &nextID, &points, fn, &inserted)
 				}
 			}
 			syncUsed := redirectSync(f)
@@ -269,6 +276,237 @@ func run(repo, out string) error {
 	rep["tracked_variables"] = tv
 	rb, _ := json.MarshalIndent(rep, "", " ")
 	return os.WriteFile(filepath.Join(out, "points.json"), rb, 0o644)
+}
+
+// readerFuncs: the Get… functions / methods of all library packages and their transitive callees (resolved by name:
+// plain calls to functions of the same package, pkg.Func calls into other library packages, and method calls by
+// method name on any type of the same package).
+func readerFuncs(pkgs []*pkgInfo) map[*ast.FuncDecl]bool {
+	type key struct{ pkg, name string }
+	byName := map[key][]*ast.FuncDecl{}
+	pkgOf := map[*ast.FuncDecl]*pkgInfo{}
+	fileOf := map[*ast.FuncDecl]*ast.File{}
+	byPkgName := map[string]*pkgInfo{}
+	for _, p := range pkgs {
+		byPkgName[p.imp] = p
+		for _, f := range p.files {
+			for _, d := range f.Decls {
+				if fd, ok := d.(*ast.FuncDecl); ok && fd.Body != nil {
+					byName[key{p.imp, fd.Name.Name}] = append(byName[key{p.imp, fd.Name.Name}], fd)
+					pkgOf[fd] = p
+					fileOf[fd] = f
+				}
+			}
+		}
+	}
+	out := map[*ast.FuncDecl]bool{}
+	var work []*ast.FuncDecl
+	for k, l := range byName {
+		// roots: the read accessors of message and element values (the values several threads may read together);
+		// security.Count.Get and snow3g.GetKeyStream work on values that are never shared
+		if strings.HasPrefix(k.name, "Get") && !strings.Contains(k.pkg, "/security") && !strings.Contains(k.pkg, "/logger") {
+			for _, fd := range l {
+				out[fd] = true
+				work = append(work, fd)
+			}
+		}
+	}
+	for len(work) > 0 {
+		fd := work[len(work)-1]
+		work = work[:len(work)-1]
+		p := pkgOf[fd]
+		imports := map[string]string{}
+		for _, is := range fileOf[fd].Imports {
+			path, _ := strconv.Unquote(is.Path.Value)
+			name := path[strings.LastIndex(path, "/")+1:]
+			if is.Name != nil {
+				name = is.Name.Name
+			}
+			imports[name] = path
+		}
+		ast.Inspect(fd.Body, func(n ast.Node) bool {
+			ce, ok := n.(*ast.CallExpr)
+			if !ok {
+				return true
+			}
+			var cands []*ast.FuncDecl
+			switch f := ce.Fun.(type) {
+			case *ast.Ident:
+				cands = byName[key{p.imp, f.Name}]
+			case *ast.SelectorExpr:
+				if id, ok := f.X.(*ast.Ident); ok && id.Obj == nil {
+					if path, ok := imports[id.Name]; ok {
+						cands = byName[key{path, f.Sel.Name}]
+						break
+					}
+				}
+				for _, c := range byName[key{p.imp, f.Sel.Name}] {
+					if c.Recv != nil {
+						cands = append(cands, c)
+					}
+				}
+			}
+			for _, c := range cands {
+				if !out[c] {
+					out[c] = true
+					work = append(work, c)
+				}
+			}
+			return true
+		})
+	}
+	return out
+}
+
+// instrReaderWrites inserts a scheduling point before every statement of a reader that assigns through its receiver,
+// a parameter, or a local derived from them (element, field or pointee — not a plain local variable).
+func instrReaderWrites(fset *token.FileSet, fd *ast.FuncDecl, p *pkgInfo, next *int, pts *[]point, file string, ins *int) {
+	shared := map[string]bool{}
+	addFields := func(fl *ast.FieldList) {
+		if fl == nil {
+			return
+		}
+		for _, f := range fl.List {
+			for _, n := range f.Names {
+				shared[n.Name] = true
+			}
+		}
+	}
+	addFields(fd.Recv)
+	addFields(fd.Type.Params)
+	// locals assigned from expressions that mention shared names (fixpoint)
+	for changed := true; changed; {
+		changed = false
+		ast.Inspect(fd.Body, func(n ast.Node) bool {
+			as, ok := n.(*ast.AssignStmt)
+			if !ok {
+				return true
+			}
+			for i, l := range as.Lhs {
+				id, ok := l.(*ast.Ident)
+				if !ok || id.Name == "_" || shared[id.Name] {
+					continue
+				}
+				var rhs ast.Expr
+				if len(as.Rhs) == len(as.Lhs) {
+					rhs = as.Rhs[i]
+				} else if len(as.Rhs) == 1 {
+					rhs = as.Rhs[0]
+				}
+				if rhs == nil || !certainAlias(rhs) && !isFieldOrIndex(rhs) {
+					continue
+				}
+				m := false
+				ast.Inspect(rhs, func(x ast.Node) bool {
+					if rid, ok := x.(*ast.Ident); ok && shared[rid.Name] {
+						m = true
+					}
+					return true
+				})
+				if m {
+					shared[id.Name] = true
+					changed = true
+				}
+			}
+			return true
+		})
+	}
+	writes := func(st ast.Stmt) bool {
+		check := func(e ast.Expr) bool {
+			switch e.(type) {
+			case *ast.IndexExpr, *ast.SelectorExpr, *ast.StarExpr:
+				if id, ok := root(e).(*ast.Ident); ok {
+					return shared[id.Name]
+				}
+				if se, ok := root(e).(*ast.SelectorExpr); ok {
+					if id, ok := se.X.(*ast.Ident); ok {
+						return shared[id.Name]
+					}
+				}
+			}
+			return false
+		}
+		switch s := st.(type) {
+		case *ast.AssignStmt:
+			for _, l := range s.Lhs {
+				if check(l) {
+					return true
+				}
+			}
+		case *ast.IncDecStmt:
+			return check(s.X)
+		}
+		return false
+	}
+	var walk func(list []ast.Stmt) []ast.Stmt
+	var nested func(st ast.Stmt)
+	walk = func(list []ast.Stmt) []ast.Stmt {
+		var out []ast.Stmt
+		for _, st := range list {
+			if writes(st) {
+				id := *next
+				*next++
+				*ins++
+				*pts = append(*pts, point{ID: id, Pkg: p.imp, File: filepath.Base(file), Line: fset.Position(st.Pos()).Line, Vars: "write-through-receiver-or-parameter-in-reader:" + fd.Name.Name})
+				out = append(out, hookCall(id))
+			}
+			nested(st)
+			out = append(out, st)
+		}
+		return out
+	}
+	nested = func(st ast.Stmt) {
+		switch s := st.(type) {
+		case *ast.BlockStmt:
+			s.List = walk(s.List)
+		case *ast.IfStmt:
+			s.Body.List = walk(s.Body.List)
+			if s.Else != nil {
+				if eb, ok := s.Else.(*ast.BlockStmt); ok {
+					eb.List = walk(eb.List)
+				} else {
+					nested(s.Else)
+				}
+			}
+		case *ast.ForStmt:
+			s.Body.List = walk(s.Body.List)
+		case *ast.RangeStmt:
+			s.Body.List = walk(s.Body.List)
+		case *ast.SwitchStmt:
+			for _, cc := range s.Body.List {
+				c := cc.(*ast.CaseClause)
+				c.Body = walk(c.Body)
+			}
+		case *ast.TypeSwitchStmt:
+			for _, cc := range s.Body.List {
+				c := cc.(*ast.CaseClause)
+				c.Body = walk(c.Body)
+			}
+		case *ast.LabeledStmt:
+			nested(s.Stmt)
+		case *ast.DeferStmt:
+			if fl, ok := s.Call.Fun.(*ast.FuncLit); ok {
+				fl.Body.List = walk(fl.Body.List)
+			}
+		case *ast.ExprStmt:
+			if ce, ok := s.X.(*ast.CallExpr); ok {
+				if fl, ok := ce.Fun.(*ast.FuncLit); ok {
+					fl.Body.List = walk(fl.Body.List)
+				}
+			}
+		}
+	}
+	fd.Body.List = walk(fd.Body.List)
+}
+
+func isFieldOrIndex(e ast.Expr) bool {
+	switch x := e.(type) {
+	case *ast.ParenExpr:
+		return isFieldOrIndex(x.X)
+	case *ast.SelectorExpr, *ast.IndexExpr:
+		return true
+	}
+	return false
 }
 
 func containsDecl(f *ast.File, fd *ast.FuncDecl) bool {
